@@ -852,3 +852,46 @@ Theorem C17_program_teq_equiv_partial :
     V.Model.DedupPerm.teq_equiv_on_families r.
 Proof. exact V.Proofs.GenerateOkTransfer.program_teq_equiv. Qed.
 Print Assumptions C17_program_teq_equiv_partial.
+
+(** ** restriction with the REAL comparison (Proofs/RestrictionReal.v).  [C17_restriction_outcome]
+    asks the oracle of the restricted run to judge every retained family equal ([fam_equal]) and
+    remarks that this cannot be derived from the full run.  Under the equivalence hypothesis it
+    can. *)
+From V Require Proofs.RestrictionReal.
+
+(** a successful comparison in a prefix of the registry is the same successful comparison in the
+    whole registry (more entries and more fuel never hurt) *)
+Theorem C17_types_equal_prefix :
+  forall r1 r2 a b x, types_equal_res r1 a b = Ok x -> types_equal_res (r1 ++ r2) a b = Ok x.
+Proof. exact V.Proofs.RestrictionReal.types_equal_prefix. Qed.
+Print Assumptions C17_types_equal_prefix.
+
+(** the hypothesis [fam_equal] of [C17_restriction_outcome] for the restricted registry's own
+    [types_equal], from a successful FULL generation *)
+Theorem C17_fam_equal_real_partial :
+  forall pi k r s m,
+    renumbering (N.of_nat (List.length r)) pi -> closed (restrict pi k r) ->
+    V.Model.DedupPerm.teq_equiv_on_families r ->
+    generate r s (types_equal r) = Ok m ->
+    fam_equal (restrict pi k r) s (types_equal (restrict pi k r)).
+Proof. exact V.Proofs.RestrictionReal.fam_equal_real. Qed.
+Print Assumptions C17_fam_equal_real_partial.
+
+(** C17_restriction (items) with the real comparison on both sides: a successful generation from
+    the full registry implies a successful generation from every closed restriction of it, and
+    every item of the latter is an item of the former at the same path with the same tokens.
+    PARTIAL: the hypothesis [teq_equiv_on_familiesb r]; the other hypotheses are those of
+    [C17_restriction_outcome]. *)
+Theorem C17_restriction_outcome_real_partial :
+  forall pi k r s m,
+    renumbering (N.of_nat (List.length r)) pi ->
+    skeleton_consistent r s -> docs_consistent r s -> derives_functional s ->
+    no_outside_roots (dr_recursive (s_dreg s)) (dropped pi k r) ->
+    closed (restrict pi k r) ->
+    V.Model.DedupPerm.teq_equiv_on_familiesb r = true ->
+    generate r s (types_equal r) = Ok m ->
+    exists m', generate (restrict pi k r) s (types_equal (restrict pi k r)) = Ok m' /\
+      forall p id' ir', items_get m' p = Some (id', ir') ->
+        exists id ir, items_get m p = Some (id, ir) /\ type_ir_tokens s ir' = type_ir_tokens s ir.
+Proof. exact V.Proofs.RestrictionReal.restriction_outcome_real. Qed.
+Print Assumptions C17_restriction_outcome_real_partial.
